@@ -622,7 +622,7 @@ func run(input string) string {
 
 func gen(rng *h.Rng, tier string, emit func(string)) {
 	st := h.Stats{}
-	n := 1200
+	n := 900
 	if tier == "thorough" {
 		n = 30000
 	}
